@@ -18,7 +18,9 @@ HANDLERS = {
     "exit": [nd("seq", a=2, b=3), nd("M", m=0), nd("exit", n=9)],
     "untrap": [nd("seq", a=2, b=3), nd("M", m=0), nd("trapr", n=1)],
 }
-ERR_HANDLERS = {"marker": [nd("M", m=0)], "fail": [nd("M", m=1)], "exit": [nd("seq", a=2, b=3), nd("M", m=0), nd("exit", n=8)]}
+ERR_HANDLERS = {"marker": [nd("M", m=0)], "fail": [nd("M", m=1)], "exit": [nd("seq", a=2, b=3), nd("M", m=0), nd("exit", n=8)],
+                # a failing command one level down inside the handler (text run by eval, or - rendered as a sourced text - by `.`): still no re-entry
+                "evalfail": [nd("eval", a=2), nd("M", m=1)]}
 E, U, EE = ("seto", 1, 1), ("seto", 2, 1), ("seto", 5, 1)
 
 
@@ -88,7 +90,7 @@ def run(tier):
         for label, pre in prefixes(P, tier, rnd):
             w = ic.wrap(P, ic.prog_id(P, [label, str(pre)]), pre)
             # a third of the bodies with an `eval` (and no `return`, which means something else in a sourced text) run it as a sourced text instead
-            if any(n["t"] == "eval" for n in P) and not any(n["t"] == "ret" for n in P) and int(w["id"][1:7], 16) % 3 == 0:
+            if any(n["t"] == "eval" for n in w["P"]) and not any(n["t"] == "ret" for n in w["P"]) and int(w["id"][1:7], 16) % 3 == 0:
                 w["src"] = True
             wrapped.append(w)
             labels[w["id"]] = label
